@@ -21,7 +21,12 @@ type Layout struct {
 	TrailingCm bool // trailing // comments
 	ExtraHead  bool // file-level hashtags before the first node, blank / comment lines in front of headers
 	NoFinalNL  bool // no line end after the last ===
-	rnd        *rand.Rand
+	// a line that closes deeper blocks may sit at a column strictly between its own level
+	// and the next deeper one (`<<else>>` under a body indented twice as far, an option
+	// after the previous option's body, `===`): the indentation rule closes every level
+	// wider than the line and opens none, so the nesting is the same
+	Ragged bool
+	rnd    *rand.Rand
 }
 
 func canonicalLayout() *Layout {
@@ -42,6 +47,7 @@ func randomLayout(rnd *rand.Rand) *Layout {
 		NoFinalNL:  rnd.Intn(4) == 0,
 		rnd:        rand.New(rand.NewSource(rnd.Int63())),
 	}
+	l.Ragged = !l.Tabs && l.Unit >= 2 && l.rnd.Intn(2) == 0
 	if rnd.Intn(3) > 0 {
 		l.JunkProb = 0.15 + 0.3*rnd.Float64()
 	}
@@ -51,7 +57,7 @@ func randomLayout(rnd *rand.Rand) *Layout {
 func (l *Layout) describe() map[string]any {
 	return map[string]any{"tabs": l.Tabs, "unit": l.Unit, "junk": l.JunkProb > 0, "crlf": l.CRLF, "spelling": l.Spelling,
 		"parens": l.Parens, "cmdspaces": l.CmdSpaces, "indentif": l.IndentIf, "trailing": l.TrailingCm,
-		"extrahead": l.ExtraHead, "nofinalnl": l.NoFinalNL}
+		"extrahead": l.ExtraHead, "nofinalnl": l.NoFinalNL, "ragged": l.Ragged}
 }
 
 func (l *Layout) nl() string {
@@ -183,9 +189,26 @@ func (l *Layout) exprIn(e *Expr, outer int, needParens bool) string {
 // -------------------------------------------------------------- statements
 
 type renderer struct {
-	c  *Case
-	l  *Layout
-	sb *strings.Builder
+	c       *Case
+	l       *Layout
+	sb      *strings.Builder
+	prevCol int // column of the previous content line of the node body (0 at its start)
+	ragged  int // lines placed between two levels
+}
+
+// raggedPad: extra blanks for a content line of depth d that follows a line at least one
+// whole level deeper (Layout.Ragged); never enough to reach the next level.
+func (r *renderer) raggedPad(d int) string {
+	l := r.l
+	pad := 0
+	if l.Ragged && !l.Tabs && l.Unit >= 2 && r.prevCol >= (d+1)*l.Unit && l.rnd.Intn(2) == 0 {
+		pad = 1 + l.rnd.Intn(l.Unit-1)
+		r.ragged++
+	}
+	if !l.Tabs {
+		r.prevCol = d*l.Unit + pad
+	}
+	return strings.Repeat(" ", pad)
 }
 
 func (r *renderer) junk() {
@@ -220,6 +243,7 @@ func (r *renderer) line(d int, text string) { r.lineT(d, text, false) }
 func (r *renderer) lineT(d int, text string, endsInText bool) {
 	r.junk()
 	r.sb.WriteString(r.l.indent(d))
+	r.sb.WriteString(r.raggedPad(d))
 	r.sb.WriteString(text)
 	if r.l.TrailingCm && r.l.rnd.Intn(3) == 0 {
 		if endsInText {
@@ -402,8 +426,12 @@ func renderNodes(c *Case, l *Layout, from, to int) string {
 			sb.WriteString("tracking: " + n.Tracking + l.nl())
 		}
 		sb.WriteString("---" + l.nl())
+		r.prevCol = 0
 		r.body(n.Body, 0)
 		r.junk()
+		if r.prevCol >= l.Unit {
+			sb.WriteString(r.raggedPad(0))
+		}
 		sb.WriteString("===")
 		if !(l.NoFinalNL && i == to-1) {
 			sb.WriteString(l.nl())
